@@ -5,6 +5,8 @@ use crate::gen::Flt;
 use serde_json::{json, Value};
 
 pub mod c01;
+pub mod c02;
+pub mod c03;
 
 /// Reference bracket: largest i <= n-2 with x[i] <= q; 0 below the range; n-2 at/above the end.
 pub fn bracket(x: &[f64], q: f64) -> usize {
